@@ -22,7 +22,10 @@ func registerC16() {
 			"and a logger that formats every argument; decoded content, error text and bytes consumed must be identical across the 8 runs, the lists absent when their option is " +
 			"off, sorted, and equal to the model's counts (failing streams: at least the completed records, at most completed + the record in flight); non-trivial: the model " +
 			"expects at least one unknown message and one unknown field; distinct by stream digest",
-		Assume:        []string{"definitions do not list the same unknown field number twice (the count would then be per occurrence, which the statement does not define)"},
+		Assume: []string{
+			"definitions do not list the same unknown field number twice (the count would then be per occurrence, which the statement does not define)",
+			"record.distance of records whose compressed_speed_distance expands is not compared between the 8 runs (known finding F5: it depends on the process-lifetime accumulator; decided in C18)",
+		},
 		MinNontrivial: 300,
 		Families: []lib.Family{
 			{Name: "streams", N: func(t string) uint64 { return tierN(t, 6000, 300000) }, Run: c16Case},
@@ -74,6 +77,16 @@ func c16Case(c *lib.Ctx, idx uint64) {
 		Unknown:   70,
 		MaxFields: 4,
 		Narrow:    5,
+		// compressed-timestamp headers on known and unknown messages: whatever the
+		// options do, they must not change how the time reference advances
+		Compressed: 30,
+		NoTimeZero: true,
+		ForceFields: func(r *lib.Rand, g uint16) []byte {
+			if r.Chance(1, 2) {
+				return []byte{253}
+			}
+			return nil
+		},
 	}
 	if variant == 3 {
 		o.UndefinedLocal = 40
@@ -141,6 +154,7 @@ func c16Case(c *lib.Ctx, idx uint64) {
 		hasUM    bool
 		nilFile  bool
 		logCalls int
+		ct       *lib.Content
 	}
 	var all [8]obs
 	for mask := 0; mask < 8; mask++ {
@@ -165,7 +179,8 @@ func c16Case(c *lib.Ctx, idx uint64) {
 			return
 		}
 		ct := lib.FileContent(f)
-		ob := obs{key: contentKey(ct), err: lib.ErrText(derr), consumed: r.Pos, nilFile: f == nil, logCalls: lg.calls}
+		lib.BlankAccumulatedDistance(ct)
+		ob := obs{key: contentKey(ct), err: lib.ErrText(derr), consumed: r.Pos, nilFile: f == nil, logCalls: lg.calls, ct: ct}
 		if ct != nil {
 			ob.uf, ob.um, ob.hasUF, ob.hasUM = ct.UnknownFields, ct.UnknownMessages, ct.HasUF, ct.HasUM
 		}
@@ -179,7 +194,11 @@ func c16Case(c *lib.Ctx, idx uint64) {
 	for mask := 1; mask < 8; mask++ {
 		ob := all[mask]
 		if ob.key != base.key {
-			c.Violation(b, "decoded messages change with options %03b", mask)
+			d := ""
+			if base.ct != nil && ob.ct != nil {
+				d = lib.DiffsString(lib.CompareContent(base.ct, ob.ct, lib.CompareOpts{Header: true}), 3)
+			}
+			c.Violation(b, "decoded messages change with options %03b (bit 0 logger, bit 1 unknown fields, bit 2 unknown messages): without options vs with: %s", mask, d)
 			return
 		}
 		if ob.err != base.err {
